@@ -416,7 +416,15 @@ UNITS = [
       cbmc_flags=["--sat-solver", "cadical"],
       stubs=["tr_recv_all", "tr_send_all", "lrtr_dbg", "pthread_setcancelstate"]),
     # ------------------------------------------------------------------ payload phase (C03 and clauses of C05 C06 C13 C14 C17)
-    U(id="store_4", props=["C03", "C05", "C06", "C13", "C14", "C17"], file="units/store.c", entry="h_store", tier="thorough",
+    U(id="store_E", props=["C03", "C05", "C06", "C13", "C14", "C17"], file="units/store.c", entry="h_store", tier="thorough",
+      enforce=[], plain=True, remove_bodies=["rtr_send_error_pdu_from_host"], allow_undefined=True, checked_by_assertions=["rtr_sync_receive_and_store_pdus", "rtr_receive_pdu", "rtr_update_pfx_table", "rtr_undo_update_pfx_table",
+                                         "rtr_update_spki_table", "rtr_undo_update_spki_table", "rtr_store_prefix_pdu", "rtr_store_router_key_pdu"], need_classes=["assertion"],
+      
+      kind="bounded: response of payload shape [] (terminal event only) + any terminal event", defines=["STORE_EMPTY", "VERIF_FMT_BODY", "STORE_TERM_EOD"],
+      unwind_functions={"rtr_sync_receive_and_store_pdus": 2, "strlen": 70},
+      native=None, link=PKT_LINK, timeout=14000, object_bits=12, mem_gb=40,
+      stubs=["lrtr_malloc", "lrtr_realloc", "lrtr_free", "pfx_table_*", "spki_table_*", "lrtr_dbg", "pthread_setcancelstate"]),
+    U(id="store_4", props=["C03", "C05", "C06", "C13", "C14", "C17"], file="units/store.c", entry="h_store", tier="lab",
       enforce=[], checked_by_assertions=["rtr_sync_receive_and_store_pdus", "rtr_receive_pdu", "rtr_update_pfx_table", "rtr_undo_update_pfx_table",
                                          "rtr_update_spki_table", "rtr_undo_update_spki_table", "rtr_store_prefix_pdu", "rtr_store_router_key_pdu"], need_classes=["assertion"],
       replace=["verif_fmt", "rtr_send_error_pdu_from_host"],
@@ -424,7 +432,7 @@ UNITS = [
       unwind_functions={"rtr_sync_receive_and_store_pdus": 3, "strlen": 70},
       native=None, link=PKT_LINK, timeout=14000, object_bits=12, mem_gb=40,
       stubs=["lrtr_malloc", "lrtr_realloc", "lrtr_free", "pfx_table_*", "spki_table_*", "lrtr_dbg", "pthread_setcancelstate"]),
-    U(id="store_44", props=["C03", "C05", "C06", "C13", "C14", "C17"], file="units/store.c", entry="h_store", tier="thorough",
+    U(id="store_44", props=["C03", "C05", "C06", "C13", "C14", "C17"], file="units/store.c", entry="h_store", tier="lab",
       enforce=[], checked_by_assertions=["rtr_sync_receive_and_store_pdus", "rtr_receive_pdu", "rtr_update_pfx_table", "rtr_undo_update_pfx_table",
                                          "rtr_update_spki_table", "rtr_undo_update_spki_table", "rtr_store_prefix_pdu", "rtr_store_router_key_pdu"], need_classes=["assertion"],
       replace=["verif_fmt", "rtr_send_error_pdu_from_host"],
@@ -432,7 +440,7 @@ UNITS = [
       unwind_functions={"rtr_sync_receive_and_store_pdus": 4, "strlen": 70},
       native=None, link=PKT_LINK, timeout=14000, object_bits=12, mem_gb=40,
       stubs=["lrtr_malloc", "lrtr_realloc", "lrtr_free", "pfx_table_*", "spki_table_*", "lrtr_dbg", "pthread_setcancelstate"]),
-    U(id="store_4446", props=["C03", "C05", "C06", "C13", "C14", "C17"], file="units/store.c", entry="h_store", tier="thorough",
+    U(id="store_4446", props=["C03", "C05", "C06", "C13", "C14", "C17"], file="units/store.c", entry="h_store", tier="lab",
       enforce=[], checked_by_assertions=["rtr_sync_receive_and_store_pdus", "rtr_receive_pdu", "rtr_update_pfx_table", "rtr_undo_update_pfx_table",
                                          "rtr_update_spki_table", "rtr_undo_update_spki_table", "rtr_store_prefix_pdu", "rtr_store_router_key_pdu"], need_classes=["assertion"],
       replace=["verif_fmt", "rtr_send_error_pdu_from_host"],
@@ -440,7 +448,7 @@ UNITS = [
       unwind_functions={"rtr_sync_receive_and_store_pdus": 6, "strlen": 70},
       native=None, link=PKT_LINK, timeout=14000, object_bits=12, mem_gb=40,
       stubs=["lrtr_malloc", "lrtr_realloc", "lrtr_free", "pfx_table_*", "spki_table_*", "lrtr_dbg", "pthread_setcancelstate"]),
-    U(id="store_669", props=["C03", "C05", "C06", "C13", "C14", "C17"], file="units/store.c", entry="h_store", tier="thorough",
+    U(id="store_669", props=["C03", "C05", "C06", "C13", "C14", "C17"], file="units/store.c", entry="h_store", tier="lab",
       enforce=[], checked_by_assertions=["rtr_sync_receive_and_store_pdus", "rtr_receive_pdu", "rtr_update_pfx_table", "rtr_undo_update_pfx_table",
                                          "rtr_update_spki_table", "rtr_undo_update_spki_table", "rtr_store_prefix_pdu", "rtr_store_router_key_pdu"], need_classes=["assertion"],
       replace=["verif_fmt", "rtr_send_error_pdu_from_host"],
@@ -448,7 +456,7 @@ UNITS = [
       unwind_functions={"rtr_sync_receive_and_store_pdus": 5, "strlen": 70},
       native=None, link=PKT_LINK, timeout=14000, object_bits=12, mem_gb=40,
       stubs=["lrtr_malloc", "lrtr_realloc", "lrtr_free", "pfx_table_*", "spki_table_*", "lrtr_dbg", "pthread_setcancelstate"]),
-    U(id="store_49", props=["C03", "C05", "C06", "C13", "C14", "C17"], file="units/store.c", entry="h_store", tier="thorough",
+    U(id="store_49", props=["C03", "C05", "C06", "C13", "C14", "C17"], file="units/store.c", entry="h_store", tier="lab",
       enforce=[], checked_by_assertions=["rtr_sync_receive_and_store_pdus", "rtr_receive_pdu", "rtr_update_pfx_table", "rtr_undo_update_pfx_table",
                                          "rtr_update_spki_table", "rtr_undo_update_spki_table", "rtr_store_prefix_pdu", "rtr_store_router_key_pdu"], need_classes=["assertion"],
       replace=["verif_fmt", "rtr_send_error_pdu_from_host"],
@@ -456,7 +464,7 @@ UNITS = [
       unwind_functions={"rtr_sync_receive_and_store_pdus": 4, "strlen": 70},
       native=None, link=PKT_LINK, timeout=14000, object_bits=12, mem_gb=40,
       stubs=["lrtr_malloc", "lrtr_realloc", "lrtr_free", "pfx_table_*", "spki_table_*", "lrtr_dbg", "pthread_setcancelstate"]),
-    U(id="store_4444", props=["C03", "C05", "C06", "C13", "C14", "C17"], file="units/store.c", entry="h_store", tier="thorough",
+    U(id="store_4444", props=["C03", "C05", "C06", "C13", "C14", "C17"], file="units/store.c", entry="h_store", tier="lab",
       enforce=[], checked_by_assertions=["rtr_sync_receive_and_store_pdus", "rtr_receive_pdu", "rtr_update_pfx_table", "rtr_undo_update_pfx_table",
                                          "rtr_update_spki_table", "rtr_undo_update_spki_table", "rtr_store_prefix_pdu", "rtr_store_router_key_pdu"], need_classes=["assertion"],
       replace=["verif_fmt", "rtr_send_error_pdu_from_host"],
@@ -464,7 +472,7 @@ UNITS = [
       unwind_functions={"rtr_sync_receive_and_store_pdus": 6, "strlen": 70},
       native=None, link=PKT_LINK, timeout=14000, object_bits=12, mem_gb=40,
       stubs=["lrtr_malloc", "lrtr_realloc", "lrtr_free", "pfx_table_*", "spki_table_*", "lrtr_dbg", "pthread_setcancelstate"]),
-    U(id="store_4469", props=["C03", "C05", "C06", "C13", "C14", "C17"], file="units/store.c", entry="h_store", tier="thorough",
+    U(id="store_4469", props=["C03", "C05", "C06", "C13", "C14", "C17"], file="units/store.c", entry="h_store", tier="lab",
       enforce=[], checked_by_assertions=["rtr_sync_receive_and_store_pdus", "rtr_receive_pdu", "rtr_update_pfx_table", "rtr_undo_update_pfx_table",
                                          "rtr_update_spki_table", "rtr_undo_update_spki_table", "rtr_store_prefix_pdu", "rtr_store_router_key_pdu"], need_classes=["assertion"],
       replace=["verif_fmt", "rtr_send_error_pdu_from_host"],
@@ -472,7 +480,7 @@ UNITS = [
       unwind_functions={"rtr_sync_receive_and_store_pdus": 6, "strlen": 70},
       native=None, link=PKT_LINK, timeout=14000, object_bits=12, mem_gb=40,
       stubs=["lrtr_malloc", "lrtr_realloc", "lrtr_free", "pfx_table_*", "spki_table_*", "lrtr_dbg", "pthread_setcancelstate"]),
-    U(id="store_06", props=["C03", "C05", "C06", "C13", "C14", "C17"], file="units/store.c", entry="h_store", tier="thorough",
+    U(id="store_06", props=["C03", "C05", "C06", "C13", "C14", "C17"], file="units/store.c", entry="h_store", tier="lab",
       enforce=[], checked_by_assertions=["rtr_sync_receive_and_store_pdus", "rtr_receive_pdu", "rtr_update_pfx_table", "rtr_undo_update_pfx_table",
                                          "rtr_update_spki_table", "rtr_undo_update_spki_table", "rtr_store_prefix_pdu", "rtr_store_router_key_pdu"], need_classes=["assertion"],
       replace=["verif_fmt", "rtr_send_error_pdu_from_host"],
@@ -553,7 +561,7 @@ UNITS = [
       enforce=["pfx_table_validate_r"], replace=["trie_lookup", "pfx_table_elem_matches"], loops=[VALIDATE_LOOP], kind="unbounded",
       need_classes=["postcondition", "loop_invariant_step", "precondition"], native=None, timeout=2400,
       stubs=["lrtr_ip_addr_get_bits", "lrtr_ip_addr_is_zero", "lrtr_ip_addr_equal", "pthread_rwlock_*"]),
-    U(id="pfx_hist", props=["C02", "C09", "C16", "C18"], file="units/pfx_hist.c", entry="h_pfx_hist", defines=["STUB_IP"], enforce=[], plain=True, tier="thorough",
+    U(id="pfx_hist", props=["C02", "C09", "C16", "C18"], file="units/pfx_hist.c", entry="h_pfx_hist", defines=["STUB_IP"], enforce=[], plain=True, tier="lab",
       checked_by_assertions=["pfx_table_add", "pfx_table_remove", "pfx_table_src_remove", "pfx_table_remove_id", "pfx_table_for_each_ipv4_record",
                              "pfx_table_for_each_ipv6_record", "trie_insert", "trie_remove", "trie_lookup_exact", "pfx_table_find_elem",
                              "pfx_table_append_elem", "pfx_table_del_elem", "pfx_table_create_node"],
@@ -562,7 +570,7 @@ UNITS = [
       unwindset={"trie_remove": {"quick": 3, "thorough": 4}, "trie_insert": {"quick": 3, "thorough": 4},
                  "pfx_table_remove_id": {"quick": 3, "thorough": 4}, "pfx_table_for_each_rec": {"quick": 4, "thorough": 5}},
       object_bits=10, stubs=["lrtr_malloc", "lrtr_realloc", "lrtr_free", "pthread_rwlock_*", "lrtr_ip_addr_*"]),
-    U(id="spki_hist", props=["C10", "C16", "C18"], file="units/spki_hist.c", entry="h_spki_hist", enforce=[], plain=True, tier="thorough",
+    U(id="spki_hist", props=["C10", "C16", "C18"], file="units/spki_hist.c", entry="h_spki_hist", enforce=[], plain=True, tier="lab",
       checked_by_assertions=["spki_table_add_entry", "spki_table_remove_entry", "spki_table_src_remove", "spki_table_get_all",
                              "spki_table_search_by_ski", "key_entry_cmp", "tommy_hashlin_insert", "tommy_hashlin_remove",
                              "tommy_hashlin_remove_existing", "tommy_hashlin_search", "tommy_list_insert_tail", "tommy_list_remove_existing"],
